@@ -390,6 +390,10 @@ func run(c *enum.Ctx) {
 			for p := 0; p < len(s); p++ {
 				do(kase{Kind: "new-pairing", S: s[:p] + "é" + s[p+1:], C: cs})
 				do(kase{Kind: "new-pairing", S: s, C: cs[:p] + "é" + cs[p+1:]})
+				// the same with equal byte lengths, and with the rune in both strings
+				do(kase{Kind: "new-pairing", S: s[:p] + "é" + s[p+1:], C: cs + "a"})
+				do(kase{Kind: "new-pairing", S: s + "a", C: cs[:p] + "é" + cs[p+1:]})
+				do(kase{Kind: "new-pairing", S: s[:p] + "é" + s[p+1:], C: cs[:p] + "é" + cs[p+1:]})
 			}
 		}
 	}
